@@ -699,7 +699,11 @@ func (i *IRCServer) send(reply *Replyctx, msg *irc.Message) *robust.Message {
 			Id:    reply.msgid,
 			Reply: reply.replyid,
 		},
-		Data:           string(msg.Bytes()),
+		// Bytes() truncates the line to 510 bytes, possibly in the middle of
+		// a multi-byte character. Drop the incomplete character: JSON
+		// encoding would replace it with U+FFFD (3 bytes), making the line
+		// which is delivered to clients longer than 510 bytes.
+		Data:           strings.ToValidUTF8(string(msg.Bytes()), ""),
 		InterestingFor: make(map[uint64]bool),
 	}
 
